@@ -97,6 +97,11 @@ func (e *ExecutionConfig) UnmarshalJSON(input []byte) error {
 	if data.Version != version {
 		return fmt.Errorf("unexpected version %d", data.Version)
 	}
+	for address, relay := range data.Relays {
+		if relay == nil {
+			return fmt.Errorf("relay %s has no configuration", address)
+		}
+	}
 
 	if data.FeeRecipient != "" {
 		tmp, err := hex.DecodeString(strings.TrimPrefix(data.FeeRecipient, "0x"))
